@@ -266,6 +266,45 @@ def c07_obligations():
 
 
 # --------------------------------------------------------------------------------------------- C17
+def c04_obligations():
+    """C04 "data derived from the old tree (the used-names index) is never served stale":
+    (1) the first effect of DiffParser.update is `self._module._used_names = None` (nothing can observe the stale memo before);
+    (2) the memo is written nowhere but: Module.__init__ (None), Module.get_used_names (filled from the current tree) and
+        DiffParser.update (None)."""
+    import ast
+    prog = program()
+    obs = []
+    q = 'parso.python.diff.DiffParser.update'
+    f = prog.fns.get(q)
+    if f is None:
+        return [Ob('eff:C04:used-names-reset-first', 'D', 'effects', UNDECIDED, 0, 'binding error: %s not found' % q)]
+    first = None
+    for st in f.node.body:
+        if isinstance(st, ast.Expr) and isinstance(st.value, ast.Constant):
+            continue                        # docstring
+        if isinstance(st, ast.Expr) and isinstance(st.value, ast.Call) and isinstance(st.value.func, ast.Attribute) \
+                and isinstance(st.value.func.value, ast.Name) and st.value.func.value.id == 'LOG':
+            continue                        # logging (A-LOG)
+        first = st
+        break
+    ok = (isinstance(first, ast.Assign) and len(first.targets) == 1 and ast.unparse(first.targets[0]) == 'self._module._used_names'
+          and isinstance(first.value, ast.Constant) and first.value.value is None)
+    obs.append(Ob('eff:C04:used-names-reset-first', 'D', 'effects', DISCHARGED if ok else REFUTED, 0,
+                  'the first statement of DiffParser.update is self._module._used_names = None' if ok else
+                  'the first effect of DiffParser.update is %r' % (ast.unparse(first)[:80] if first is not None else None),
+                  None if ok else dict(first=ast.unparse(first)[:200] if first is not None else None), functions=[q],
+                  replayed=False if not ok else None))
+    ws = sorted({qq for qq in prog.fns for (loc, ln, txt) in prog.fns[qq].writes if loc.endswith('._used_names')})
+    allowed = {'parso.python.tree.Module.__init__', 'parso.python.tree.Module.get_used_names', q}
+    extra = [x for x in ws if x not in allowed]
+    missing = [x for x in allowed if x not in ws]
+    ok = not extra and not missing
+    obs.append(Ob('eff:C04:used-names-writers', 'D', 'effects', DISCHARGED if ok else REFUTED, 0,
+                  'writers of _used_names: %r' % ws, None if ok else dict(extra=extra, missing=missing), functions=ws,
+                  replayed=False if not ok else None))
+    return obs
+
+
 def raises_obligations(name, quals, allowed):
     """escaping(f) <= allowed for each function (for arbitrary file contents / faults: primitives raise per table)."""
     prog = program()
